@@ -1,4 +1,5 @@
 import NavisModel.Model.Conn
+import NavisModel.Model.ConnViews
 import NavisModel.Drv.Proto
 /-!
 Line protocol for C20 (labels / names are `[A-Za-z0-9_]+`, blanks are ignored around separators).
@@ -8,16 +9,48 @@ Line protocol for C20 (labels / names are `[A-Za-z0-9_]+`, blanks are ignored ar
 * `c20.all <io> | <neurons>` →
   `pu=<0|1>|edges=<edges>|index=<names>|adj=<row>/<row>…|dg=src>tgt:w:cid.pre.post+…,…|mg=src>tgt:cid.pre.post,…|w=src>tgt:adj:dgw:mgn,…`
 * `c20.check <io> | <neurons> | <edges>` → `pu=<0|1> ok=<0|1>` (`checkEdges` on the implementation's own edge list)
+* type tokens of a row: a bare integer (Python / numpy int), or `i<int>`, `f<num>` / `f<num>_<den>` (float), `bT` / `bF` (bool),
+  `s<text>` (str), `nan`, `none`; they are reduced with the model's `typeCode` (Python `==` against the literals)
+* `c20.inc <io> | <neurons>` → `names=<names>|edges=<edges>` from the *incremental* state machine `buildN` (`add_neuron` one by one)
+* `c20.views <io> | <neurons> | <edges> | <index> | <adj rows r/r> | <dgNodes> | <dg> | <mgNodes> | <mg>` →
+  `ok=<0|1> idx=.. adj=.. dgk=.. dge=.. dgc=.. mg=..` : the proved-sound checker `viewsOKB` on navis' own three views for navis' own edge
+  list (the per-clause bits are diagnostics only); `dg` = `src>tgt:w:cid.pre.post+…,…`, `mg` = `src>tgt:cid.pre.post,…`
+* `c20.n2nx <threshold|N> | <index> | <adj rows>` → `nodes=<names>|edges=src>tgt:w,…` (`network2nx` on an adjacency frame)
+* `c20.gtotal <drop> | rows | cols | data | <groups> | <groups> | grows | gcols | gdata` → `ok=<0|1> total=.. kept=..`
+  (`groupTotalsOKB` on navis' own grouped matrix, `method='SUM'`)
 * `c20.group <method> <drop> | rows | cols | v,v;v,v | <groups> | <groups>` → `rows|cols|v,v;v,v|total`
   groups: `N:k>v,k>v` (neuron → group) or `G:g>m+m,g>m` (group → members); values `num` or `num:den`.
 -/
 namespace Navis.Drv.C20
 open Navis.Conn Navis.Proto
 
+def parseTVal (s : String) : Option TVal :=
+  let s := trim s
+  if s == "nan" then some .nan
+  else if s == "none" then some .none
+  else if s == "bT" then some (.bool true)
+  else if s == "bF" then some (.bool false)
+  else if s.startsWith "s" then some (.str (s.drop 1).toString)
+  else if s.startsWith "i" then ((s.drop 1).toString.toInt?).map .int
+  else if s.startsWith "f" then
+    match ((s.drop 1).toString).splitOn "_" with
+    | [n] => n.toInt?.map fun i => .float (i : Rat)
+    | [n, d] => do
+      let n ← n.toInt?; let d ← d.toNat?
+      if d == 0 then none else pure (.float ((n : Rat) / (d : Rat)))
+    | _ => none
+  else none
+
+/-- bare integers go to the first-layer model unchanged; tagged Python values through `typeCode` -/
+def parseType (s : String) : Option Int :=
+  match (trim s).toInt? with
+  | some i => some i
+  | none => (parseTVal s).map typeCode
+
 def parseRow (s : String) : Option (Int × Int × Int) :=
   match (trim s).splitOn ":" with
   | [c, n, t] => do
-    let c ← (trim c).toInt?; let n ← (trim n).toInt?; let t ← (trim t).toInt?
+    let c ← (trim c).toInt?; let n ← (trim n).toInt?; let t ← parseType t
     pure (c, n, t)
   | _ => none
 
@@ -72,7 +105,7 @@ def runAll (io : Bool) (ns : List Neuron) : String :=
   let es := edges (build rows) io
   let names := neuronNames ns
   let idx := index names io
-  let adj := adjacency names io es
+  let adj := adjDense idx es      -- `to_adjacency` as written (= `adjacency names io es`, Props/C20 `adjacency_as_written`)
   let dg := digraphEdges es
   let pairs := dedup (es.map Edge.key)
   let dgS := ",".intercalate (dg.map fun p =>
@@ -82,6 +115,62 @@ def runAll (io : Bool) (ns : List Neuron) : String :=
     s!"{p.1}>{p.2}:{adjCell es p.1 p.2}:{digraphWeight es p.1 p.2}:{(multiBetween es p.1 p.2).length}")
   s!"pu={b01 (preUniqueB rows)}|edges={",".intercalate (es.map showEdge)}|index={",".intercalate idx}" ++
   s!"|adj={"/".intercalate (adj.map showNats)}|dg={dgS}|mg={mgS}|w={wS}"
+
+/-! incremental construction, checker for navis' own views, network2nx -/
+
+def runInc (io : Bool) (ns : List Neuron) : String :=
+  let st := buildN ns
+  s!"names={",".intercalate st.names}|edges={",".intercalate ((edges st.maps io).map showEdge)}"
+
+def parseSyn (s : String) : Option Syn :=
+  match (trim s).splitOn "." with
+  | [c, a, b] => do
+    let c ← (trim c).toInt?; let a ← parseOpt a; let b ← parseOpt b
+    pure (c, a, b)
+  | _ => none
+
+def parsePairKey (s : String) : Option (String × String) :=
+  match (trim s).splitOn ">" with
+  | [a, b] => some (trim a, trim b)
+  | _ => none
+
+def parseDgEntry (s : String) : Option ((String × String) × Nat × List Syn) :=
+  match (trim s).splitOn ":" with
+  | [k, w, l] => do
+    let k ← parsePairKey k; let w ← (trim w).toNat?
+    let l ← if (trim l).isEmpty then some [] else ((trim l).splitOn "+").mapM parseSyn
+    pure (k, w, l)
+  | _ => none
+
+def parseMgEntry (s : String) : Option ((String × String) × Syn) :=
+  match (trim s).splitOn ":" with
+  | [k, x] => do
+    let k ← parsePairKey k; let x ← parseSyn x
+    pure (k, x)
+  | _ => none
+
+def parseListOf {α} (f : String → Option α) (s : String) : Option (List α) :=
+  let s := trim s
+  if s.isEmpty then some [] else (s.splitOn ",").mapM f
+
+def parseDense (s : String) : Option Dense :=
+  let s := trim s
+  if s.isEmpty then some [] else (s.splitOn "/").mapM natList?
+
+def runViews (io : Bool) (ns : List Neuron) (es : List Edge) (v : Views) : String :=
+  let names := neuronNames ns
+  let idxOK := v.index.isPerm (index names io) && v.dgNodes.isPerm (index names io) && v.mgNodes.isPerm (index names io)
+  let adjOK := decide (v.adj = cellsOf v.index fun s t => (between es s t).length)
+  let dgk := decide (dkeys v.dg).Nodup
+  let dge := v.dg.all (fun p => !p.2.2.isEmpty && decide (p.2.1 = p.2.2.length)
+        && p.2.2.isPerm ((between es p.1.1 p.1.2).map Edge.syn))
+  let dgc := es.all (fun e => (dkeys v.dg).contains e.key)
+  let mgOK := v.mg.isPerm (multiEdges es)
+  s!"ok={b01 (viewsOKB names io es v)} idx={b01 idxOK} adj={b01 adjOK} dgk={b01 dgk} dge={b01 dge} dgc={b01 dgc} mg={b01 mgOK}"
+
+def runN2nx (th : Option Nat) (idx : List String) (M : Dense) : String :=
+  let g := n2nx th idx M
+  s!"nodes={",".intercalate (n2nxNodes th idx M)}|edges=" ++ ",".intercalate (g.map fun p => s!"{p.1.1}>{p.1.2}:{p.2}")
 
 /-! group_matrix -/
 
@@ -95,13 +184,7 @@ def parseRat (s : String) : Option Rat :=
 
 def showRat (r : Rat) : String := if r.den == 1 then toString r.num else s!"{r.num}:{r.den}"
 
-def parseMethod (s : String) : Option Method :=
-  match trim s with
-  | "SUM" => some .sum
-  | "AVERAGE" => some .avg
-  | "MIN" => some .min
-  | "MAX" => some .max
-  | _ => none
+def parseMethod (s : String) : Option Method := methodOfName (trim s)
 
 def parsePair (s : String) : Option (String × String) :=
   match (trim s).splitOn ">" with
@@ -141,11 +224,38 @@ def run (cmd : String) (rest : String) : Option String :=
       let io ← parseBool io; let ns ← parseNeurons ns
       pure (runAll io ns)
     | _ => none
+  | "inc" => match rest.splitOn "|" with
+    | [io, ns] => do
+      let io ← parseBool io; let ns ← parseNeurons ns
+      pure (runInc io ns)
+    | _ => none
+  | "views" => match rest.splitOn "|" with
+    | [io, ns, es, idx, adj, dgn, dg, mgn, mg] => do
+      let io ← parseBool io; let ns ← parseNeurons ns; let es ← parseEdges es
+      let adj ← parseDense adj
+      let dg ← parseListOf parseDgEntry dg; let mg ← parseListOf parseMgEntry mg
+      pure (runViews io ns es ⟨strList idx, adj, strList dgn, dg, strList mgn, mg⟩)
+    | _ => none
+  | "n2nx" => match rest.splitOn "|" with
+    | [th, idx, adj] => do
+      let th ← if trim th == "N" then some none else (trim th).toNat?.map some
+      let adj ← parseDense adj
+      pure (runN2nx th (strList idx) adj)
+    | _ => none
   | "check" => match rest.splitOn "|" with
     | [io, ns, es] => do
       let io ← parseBool io; let ns ← parseNeurons ns; let es ← parseEdges es
       let rows := flatRows ns
       pure s!"pu={b01 (preUniqueB rows)} ok={b01 (checkEdges io rows es)}"
+    | _ => none
+  | "gtotal" => match rest.splitOn "|" with
+    | [drop, rows, cols, data, rg, cg, grows, gcols, gdata] => do
+      let drop ← parseBool drop
+      let data ← parseData data; let gdata ← parseData gdata
+      let rg ← parseGroups rg; let cg ← parseGroups cg
+      let M := mkMat (strList rows) (strList cols) data
+      let G := mkMat (strList grows) (strList gcols) gdata
+      pure s!"ok={b01 (groupTotalsOKB rg cg drop M G)} total={showRat (total G)} kept={showRat (keptTotal rg cg drop M)}"
     | _ => none
   | "group" => match rest.splitOn "|" with
     | [hd, rows, cols, data, rg, cg] => match words hd with
